@@ -1,6 +1,6 @@
 """E10 - Python-semantics hygiene on the functions a property's behaviour passes through.
 
-Eight exact lints, each of which names a construct whose behaviour differs between the first and a later use - the kind
+Nine exact lints, each of which names a construct whose behaviour differs between the first and a later use - the kind
 of fault that a test which exercises a function once cannot see:
 
   H1  a mutable default argument (or a function attribute / module-level container bound once) that the function
@@ -17,6 +17,7 @@ of fault that a test which exercises a function once cannot see:
   H7  two members of one Enum class bound to the same constant (the second becomes an alias of the first);
   H8  a click option whose kind (flag / multiple / plain) disagrees with the annotation of the parameter it fills - hidden
       aliases included;
+  H9  text-mode file I/O (open / read_text / write_text) without an explicit encoding: the locale decides;
   H3  a lambda / nested function created in a loop that reads the loop variable as a free variable and is STORED
       (appended, assigned to a container or attribute, returned, yielded) instead of being called in the same iteration:
       every stored closure sees the last value of the variable.
@@ -457,6 +458,34 @@ def click_declarations(fn: ast.FunctionDef) -> list[tuple[ast.AST, str, str]]:
     return out
 
 
+# ------------------------------------------------------------------------------------------------------------ H9
+def implicit_text_encoding(fn: ast.AST) -> list[tuple[ast.AST, str, str]]:
+    """Text-mode file I/O without an explicit encoding uses the LOCALE's encoding: what one command writes (or reads) then
+    depends on LANG / LC_ALL, while every reader of the package opens the same files as UTF-8."""
+    out = []
+    for c in _own_nodes(fn):
+        if not isinstance(c, ast.Call):
+            continue
+        name = ast.unparse(c.func)
+        last = name.split(".")[-1]
+        if any(kw.arg == "encoding" for kw in c.keywords):
+            continue
+        if last in ("read_text", "write_text"):
+            if last == "read_text" and c.args or last == "write_text" and len(c.args) >= 2:
+                continue   # encoding given positionally
+            out.append((c, last, f"`{ast.unparse(c)[:70]}` names no encoding"))
+        elif name in ("open", "io.open", "codecs.open") or (last == "open" and (c.args or any(kw.arg == "mode" for kw in c.keywords))):
+            args = c.args[1:] if name in ("open", "io.open", "codecs.open") else c.args
+            mode = args[0] if args else next((kw.value for kw in c.keywords if kw.arg == "mode"), None)
+            mtxt = mode.value if isinstance(mode, ast.Constant) and isinstance(mode.value, str) else ("r" if mode is None else None)
+            if mtxt is None or "b" in mtxt:
+                continue
+            if name not in ("open", "io.open", "codecs.open") and len(args) >= 3:
+                continue
+            out.append((c, "open", f"`{ast.unparse(c)[:70]}` opens a text file without naming an encoding"))
+    return out
+
+
 # ------------------------------------------------------------------------------------------------------------ driver
 def scope_of(repo: Repo, seeds: Iterable[str]) -> list[str]:
     """Seeds plus everything they can call, by name: a plain name or self./cls. attribute that denotes exactly one function of the package."""
@@ -575,6 +604,17 @@ def h8(a: bool, b: Sequence[str]):
     pass
 def h8_ok(a: bool, b: Sequence[str], c: Optional[str]):
     pass
+def h9(p, text):
+    p.write_text(text)
+    with open(p, "w") as fp:
+        fp.write(text)
+def h9_ok(p, text, out):
+    p.write_text(text, encoding="utf-8")
+    with open(p, "rb") as fp:
+        fp.read()
+    with open(p, "w", encoding="utf-8") as fp:
+        fp.write(text)
+    out.open()
 def h4(text):
     import re
     return re.sub("a.*?b", "", text, re.DOTALL)
@@ -608,8 +648,9 @@ def self_control() -> Optional[str]:
         "h6": bool(implicit_concatenation(H6_BAD, ast.parse(H6_BAD))), "h6_ok": bool(implicit_concatenation(H6_OK, ast.parse(H6_OK))),
         "h7": bool(enum_aliases(ast.parse(H7_BAD))), "h7_ok": bool(enum_aliases(ast.parse(H7_OK))),
         "h8": len(click_declarations(fns["h8"])) == 2, "h8_ok": bool(click_declarations(fns["h8_ok"])),
+        "h9": len(implicit_text_encoding(fns["h9"])) == 2, "h9_ok": bool(implicit_text_encoding(fns["h9_ok"])),
     }
-    want = {"h1": True, "h1_ok": False, "h2": True, "h2_loop": True, "h2_ok": False, "h3": True, "h3_ok": False, "h4": True, "h4_ok": False, "h5": True, "h5_ok": False, "h6": True, "h6_ok": False, "h7": True, "h7_ok": False, "h8": True, "h8_ok": False}
+    want = {"h1": True, "h1_ok": False, "h2": True, "h2_loop": True, "h2_ok": False, "h3": True, "h3_ok": False, "h4": True, "h4_ok": False, "h5": True, "h5_ok": False, "h6": True, "h6_ok": False, "h7": True, "h7_ok": False, "h8": True, "h8_ok": False, "h9": True, "h9_ok": False}
     return None if got == want else f"hygiene positive control: {got}"
 
 
@@ -638,6 +679,11 @@ def run(ck, repo: Repo, rid: str = "H") -> None:
             r.violation(q, f"H4 a regex flag in a count position: {what}",
                         "the flag's integer value is used as the maximum number of substitutions / splits and the flag itself is not applied",
                         repo.loc(node))
+        for node, name, what in implicit_text_encoding(fn):
+            r.violation(q, f"H9 locale-dependent text I/O: {what}",
+                        "the locale's preferred encoding is used: under LANG=C / a Latin-1 locale a non-ASCII holder name cannot be written"
+                        " (UnicodeEncodeError, an empty file is left behind) or is written in an encoding the package's UTF-8 readers"
+                        " reject or misread", repo.loc(node))
         for node, name, what in click_declarations(fn):
             r.violation(q, f"H8 a click declaration and the parameter it fills disagree: {what}",
                         "click converts the command line by the DECLARATION; the function body relies on the annotated type",
